@@ -466,13 +466,66 @@ func (g *sgen) fTypeTies() {
 	}
 }
 
+// one text with two or three top-level statements.  The last one is fine, or rejected by the AST
+// builder, or rejected by Modules.add for a reason of its own; when the text is bound to be
+// rejected an earlier statement of it carries the name (and revision) of a module that another
+// file of the set defines differently, and an importer uses that module's typedef and grouping:
+// whatever the rejected text leaves behind shows in the importer's tree.
+func (g *sgen) fMultiText() {
+	g.feat("multi-statement-text")
+	x, u, y := g.modName("x"), g.modName("u"), g.modName("y")
+	rev := ""
+	if g.chance(0.4) {
+		rev = "  revision 2021-03-03;\n"
+	}
+	modx := func(typ, leaf string) string {
+		return fmt.Sprintf("module %s {\n  namespace \"urn:%s\";\n  prefix %s;\n%s  typedef t { type %s; }\n  grouping g { leaf %s { type t; } }\n  container c { uses g; }\n}\n", x, x, x, rev, typ, leaf)
+	}
+	variant := g.r.Intn(8)
+	var last string
+	switch variant {
+	case 0, 1: // fine
+		last = fmt.Sprintf("module %s {\n  namespace \"urn:%s\";\n  prefix %s;\n  leaf ok { type string; }\n}\n", y, y, y)
+	case 2: // unknown substatement
+		last = fmt.Sprintf("module %s {\n  namespace \"urn:%s\";\n  prefix %s;\n  bogus-statement 1;\n}\n", y, y, y)
+	case 3: // missing mandatory substatement
+		last = fmt.Sprintf("module %s {\n  namespace \"urn:%s\";\n  leaf ok { type string; }\n}\n", y, y)
+	case 4: // a single-valued field twice
+		last = fmt.Sprintf("module %s {\n  namespace \"urn:%s\";\n  prefix %s;\n  prefix other;\n}\n", y, y, y)
+	case 5: // the name of an earlier statement of the same text
+		last = "" // filled below: a copy of the middle statement
+	case 6: // '@' in the name
+		last = fmt.Sprintf("module \"%s@2020-01-01\" {\n  namespace \"urn:%s\";\n  prefix %s;\n}\n", y, y, y)
+	case 7: // a submodule the builder rejects
+		last = fmt.Sprintf("submodule %s-s {\n  belongs-to %s { prefix %s; }\n  leaf l { type string; }\n  bogus-statement 1;\n}\n", y, x, x)
+	}
+	mid := ""
+	if g.chance(0.6) || variant == 5 {
+		z := g.modName("z")
+		mid = fmt.Sprintf("module %s {\n  namespace \"urn:%s\";\n  prefix %s;\n  typedef zt { type int8; }\n  leaf zl { type zt; }\n}\n", z, z, z)
+		if variant == 5 {
+			last = mid
+		}
+	}
+	if variant <= 1 {
+		// accepted as a whole: its statements have names of their own
+		g.add(x, modx("string", "from-x"))
+		w := g.modName("x")
+		g.add("multi-"+w, fmt.Sprintf("module %s {\n  namespace \"urn:%s\";\n  prefix %s;\n  leaf first { type string; }\n}\n", w, w, w)+mid+last)
+	} else {
+		g.add(x, modx("string", "from-x"))
+		g.add("multi-"+x, modx("uint8", "from-multi")+mid+last)
+	}
+	g.add(u, fmt.Sprintf("module %s {\n  namespace \"urn:%s\";\n  prefix %s;\n  import %s { prefix x; }\n  container top { uses x:g; leaf v { type x:t; } }\n}\n", u, u, u, x))
+}
+
 // genSet builds one source set; the load order is shuffled.
 func genSet(r *rand.Rand) *srcSet {
 	g := &sgen{r: r, s: &srcSet{}, used: map[string]bool{}, feats: map[string]bool{}}
 	g.base()
 	// features that may leave the set clean are drawn three times as often as those that always
 	// end in errors
-	clean := []func(){g.fIdent, g.fDevPair, g.fDev2, g.fAug2, g.fRevs, g.fForeignInclude, g.fSubCircle, g.fShared, g.fTypeTies, g.fTypeTies}
+	clean := []func(){g.fIdent, g.fDevPair, g.fDev2, g.fAug2, g.fRevs, g.fForeignInclude, g.fSubCircle, g.fShared, g.fTypeTies, g.fTypeTies, g.fMultiText, g.fMultiText}
 	faulty := []func(){g.fAugChain, g.fPosless, g.fSamePos, g.fMany, g.fMissing, g.fCycle}
 	k := 1 + r.Intn(3)
 	if r.Float64() < 0.15 {
